@@ -22,20 +22,24 @@ CONSTANTS Names, MaxSteps
 Unset == "unset"
 GVals == [origins : {"A", "B"}, playback : {"on", "off"}]
 DVals == [maxReaders : {"0", "3"}, rda : {"1h", "2h"}]
-PFields == {"maxReaders", "override"}
-PVal(f) == IF f = "maxReaders" THEN {"0", "3"} ELSE {"t", "f"}
-Optional == [maxReaders : {Unset, "0", "3"}, override : {Unset, "t", "f"}]
-Absent == [maxReaders |-> "absent", override |-> "absent"]
+\* "ports" is a LIST-typed path parameter (rtspUDPSourcePortRange) that the path defaults also have (value "def",
+\* never edited): a list set on one path must not write through to the defaults or to other paths
+PFields == {"maxReaders", "override", "ports"}
+PVal(f) == IF f = "maxReaders" THEN {"0", "3"} ELSE IF f = "ports" THEN {"a", "b"} ELSE {"t", "f"}
+Optional == [maxReaders : {Unset, "0", "3"}, override : {Unset, "t", "f"}, ports : {Unset, "a", "b"}]
+Absent == [maxReaders |-> "absent", override |-> "absent", ports |-> "absent"]
 
 \* payloads: a record over the same fields with Unset = field omitted, plus a defect marker
 \*   "none" | "value" (a value that validation rejects) | "type" (wrong JSON type) | "unknown" (unknown key)
 Bad == {"none", "value", "type", "unknown"}
 GPayloads == {[origins |-> o, playback |-> p, bad |-> b] : o \in {Unset, "A", "B"}, p \in {Unset, "on", "off"}, b \in Bad}
 DPayloads == {[maxReaders |-> m, rda |-> r, bad |-> b] : m \in {Unset, "0", "3"}, r \in {Unset, "1h", "2h"}, b \in Bad}
-PPayloads == {[maxReaders |-> m, override |-> o, bad |-> b] : m \in {Unset, "0", "3"}, o \in {Unset, "t", "f"}, b \in Bad}
+\* (the list-typed field is combined with the scalar ones in a few payloads only: the graph has one edge per payload)
+PPayloads == {[maxReaders |-> m, override |-> o, ports |-> Unset, bad |-> b] : m \in {Unset, "0", "3"}, o \in {Unset, "t", "f"}, b \in Bad}
+             \cup {[maxReaders |-> m, override |-> Unset, ports |-> q, bad |-> "none"] : m \in {Unset, "3"}, q \in {"a", "b"}}
 
 Op(kind, name, pl) == [kind |-> kind, name |-> name, pl |-> pl]
-NoPl == [maxReaders |-> Unset, override |-> Unset, bad |-> "none"]
+NoPl == [maxReaders |-> Unset, override |-> Unset, ports |-> Unset, bad |-> "none"]
 
 \* ---- the decision function
 Accepted(s, op) ==
@@ -61,7 +65,8 @@ Apply(s, op) ==
 Effective(s, n) ==
     IF s.p[n] = Absent THEN Absent
     ELSE [maxReaders |-> IF s.p[n].maxReaders = Unset THEN s.d.maxReaders ELSE s.p[n].maxReaders,
-          override   |-> IF s.p[n].override = Unset THEN "t" ELSE s.p[n].override]
+          override   |-> IF s.p[n].override = Unset THEN "t" ELSE s.p[n].override,
+          ports      |-> IF s.p[n].ports = Unset THEN "def" ELSE s.p[n].ports]
 View(s) == [g |-> s.g, d |-> s.d, paths |-> [n \in Names |-> Effective(s, n)]]
 
 \* ---- bounded model
